@@ -135,7 +135,7 @@ OWNERS = {
     ("file", "hash"): {"workflow.Workflow.update_file_hashes", "finalize.revert_optional_steps"},
     ("file", "INSERT"): {"file.File.initialize_row"},
     ("step", "state"): {"step.Step.set_state", "startup.reset_interrupted_steps", "finalize.revert_optional_steps"},
-    ("step", "deferred"): {"step.Step.set_state"},
+    ("step", "deferred"): {"step.Step.set_state", "step.Step.reset_for_rerun"},
     ("step", "INSERT"): {"step.Step.initialize_row"},
     ("step", "DELETE"): {"step.Step.initialize_row"},
     ("step_hash", "INSERT"): {"step.Step.set_hash"},
